@@ -277,6 +277,31 @@ fn walk_all(it: &mut ModuleIterator) -> Vec<Visit> {
     v
 }
 
+/// Like `walk_all`, but at every position the walker first selects an instrumentation mode at ANOTHER
+/// location of the same function through the explicit-location call (no instruction is injected) and only
+/// then reads what the iterator reports: the report must still describe the instruction being visited.
+fn walk_all_instrumenting(it: &mut ModuleIterator) -> Vec<Visit> {
+    let mut v = vec![];
+    loop {
+        if let (Location::Module { func_idx, instr_idx }, _) = it.curr_loc() {
+            let other = Location::Module { func_idx, instr_idx: if instr_idx == 0 { 1 } else { 0 } };
+            if v.len() % 3 != 2 {
+                it.before_at(other);
+            } else {
+                it.after_at(other);
+            }
+            if let (Location::Module { func_idx, instr_idx }, is_end) = it.curr_loc() {
+                let op = it.curr_op().map(Ins::from_op).unwrap_or(Ins::Unknown("none".into()));
+                v.push((*func_idx, instr_idx as u32, is_end, op));
+            }
+        }
+        if it.next().is_none() || v.len() > 200_000 {
+            break;
+        }
+    }
+    v
+}
+
 fn do_walks<'a>(module: &mut Module<'a>, plan: &WalkPlan, expect_empty: bool) -> Vec<WalkObs> {
     let skip: Vec<FunctionID> = plan.skip.iter().map(|f| FunctionID(*f)).collect();
     let mut out = vec![];
@@ -322,6 +347,14 @@ fn do_walks<'a>(module: &mut Module<'a>, plan: &WalkPlan, expect_empty: bool) ->
             }
             it.reset();
             walk_all(&mut it)
+        }),
+    });
+    // last, because it leaves instrumentation modes selected on instructions
+    out.push(WalkObs {
+        what: "while_selecting_modes_elsewhere".into(),
+        result: guarded(|| {
+            let mut it = ModuleIterator::new(module, &skip);
+            walk_all_instrumenting(&mut it)
         }),
     });
     out
